@@ -83,6 +83,11 @@ def _case(args):
         ev.append({"tid": tid, "ev": "Iter", "k": k, "r_lg": lg(sub / dom) if dom > 0 and sub > 0 else -100000,
                    "stopped": bool(stopped_at is not None), "unit_units": units(abs(ofro(vf) - 1.0), 1.0, 4 * n)})
         prev = vf
+    # call history: just before the run that is judged, the routine has worked on a RELATED matrix of the same size (same
+    # eigenvectors, the spectrum rotated so that the dominant eigenvalue sits on another eigenvector; also c*I - A)
+    if n >= 2 and tid % 2 == 1:
+        _pit(E.herm_from_spectrum(U, list(np.roll(lam, 1))), 4000, tol, seed)
+        _pit(E.herm_from_spectrum(U, [1.5 * abs(l1) * (1 if l1 > 0 else -1) - x for x in lam]), 4000, tol, seed + 1)
     # the run a user makes: enough iterations
     v, e = _pit(A, 4000, tol, seed)
     vf = q_to_float(np.asarray(v)).reshape(n, 1, 4)
